@@ -1089,7 +1089,13 @@ def chain_moderate(b, X, ctx, spec=None, bound=6.0):
         if spec["t"] == "composite":
             z = X
             for p, ps in zip(b.parts, spec["parts"]):
-                if not _sat_ok(_sat_kind(ps), z, bound):
+                zs = z
+                if ps["t"] == "sigmoid":
+                    try:
+                        zs = z * float(p.module.temperature)      # saturation is a matter of temperature * x
+                    except Exception:
+                        pass
+                if not _sat_ok(_sat_kind(ps), zs, bound):
                     return False
                 if ps["t"] == "compositecdf" and not _compositecdf_ok(p.module, z):
                     return False
@@ -1126,6 +1132,11 @@ def chain_moderate(b, X, ctx, spec=None, bound=6.0):
             return False
         if spec["t"] == "inverse" and spec["of"]["t"] == "compositecdf" and not _compositecdf_ok(b.module._transform, X, True):
             return False
+        if spec["t"] == "sigmoid":
+            try:
+                return _sat_ok("R", X * float(b.module.temperature), bound)
+            except Exception:
+                pass
         return _sat_ok(_sat_kind(spec), X, bound)
 
 
